@@ -498,7 +498,9 @@ func (c *CqlServerConnection) outgoingLoop() {
 					abort = c.writeRawResponse(outgoing.rawResponse, c.conn)
 					log.Debug().Msgf("%v: sending outgoing raw response: %v", c, outgoing.rawResponse)
 				} else {
-					if c.compression != primitive.CompressionNone {
+					// in protocol v5 envelopes are never compressed individually (the compression flag is deprecated and
+					// ignored by v5 peers): compression is applied to whole segments once the handshake is done
+					if c.compression != primitive.CompressionNone && !outgoing.responseFrame.Header.Version.SupportsModernFramingLayout() {
 						outgoing.responseFrame.Header.Flags = outgoing.responseFrame.Header.Flags.Add(primitive.HeaderFlagCompressed)
 					}
 					log.Debug().Msgf("%v: sending outgoing frame: %v", c, outgoing.responseFrame)
